@@ -163,6 +163,7 @@ structure Inv (s : Sys) : Prop where
   inflFin : ∀ e ∈ s.pub.inflight, ∃ snap ∈ s.pub.finished, snap.id = e.1
   finGood : ∀ snap ∈ s.pub.finished, snap.WF ∧ snap.isComplete = true
   fifoTrue : s.pub.fifo = true
+  noSp : s.savepoint = none
 
 theorem Inv.wr_le_max {s : Sys} (hi : Inv s) {w : Nat} (hw : w ∈ s.pub.written) : w ≤ maxL s.pub.files := by
   obtain ⟨f, hf, hle⟩ := hi.wrFile w hw
@@ -215,7 +216,8 @@ theorem inv_boot {files written delivered initial : List Nat} {finished : List S
       wrFin := by simp [boot]
       inflFin := by simp [boot]
       finGood := by simpa [boot] using h6
-      fifoTrue := by simpa [boot] using h7 }
+      fifoTrue := by simpa [boot] using h7
+      noSp := rfl }
   · have hl := load_of_ne hf
     exact {
       store := ⟨[], by intro p hp; simp [boot] at hp⟩
@@ -237,7 +239,8 @@ theorem inv_boot {files written delivered initial : List Nat} {finished : List S
       wrFin := by simpa [boot] using h5
       inflFin := by simp [boot]
       finGood := by simpa [boot] using h6
-      fifoTrue := by simpa [boot] using h7 }
+      fifoTrue := by simpa [boot] using h7
+      noSp := rfl }
 
 theorem inv_init (files0 : List Nat) : Inv (init files0) :=
   inv_boot (fun w hw => ⟨w, hw, Nat.le_refl _⟩) (fun _ h => h) (by simp) (by simp) (fun n hn => Or.inl hn) (by simp) rfl
@@ -271,7 +274,8 @@ theorem inv_call {s : Sys} (hi : Inv s) (c : Store.Call) {s' : Sys} {obs : List 
       wrFin := hi.wrFin
       inflFin := hi.inflFin
       finGood := hi.finGood
-      fifoTrue := hi.fifoTrue }
+      fifoTrue := hi.fifoTrue
+      noSp := hi.noSp }
   | some snap =>
     rw [hf] at h
     simp only [Option.some.injEq, Prod.mk.injEq] at h
@@ -319,7 +323,8 @@ theorem inv_call {s : Sys} (hi : Inv s) (c : Store.Call) {s' : Sys} {obs : List 
         rcases hs with hs | hs
         · exact hi.finGood sn hs
         · subst hs; exact ⟨hgood.wf, hgood.complete⟩
-      fifoTrue := hi.fifoTrue }
+      fifoTrue := hi.fifoTrue
+      noSp := hi.noSp }
 
 theorem inv_write {s : Sys} (hi : Inv s) (n : Nat) {s' : Sys} {obs : List Obs}
     (h : step s (.write n) = some (s', obs)) : Inv s' := by
@@ -395,7 +400,8 @@ theorem inv_write {s : Sys} (hi : Inv s) (n : Nat) {s' : Sys} {obs : List Obs}
         · rw [if_pos hen] at heq; subst heq; subst hen; exact hi.inflFin (n, false) he0
         · rw [if_neg hen] at heq; subst heq; exact hi.inflFin _ he0
       finGood := hi.finGood
-      fifoTrue := hi.fifoTrue }
+      fifoTrue := hi.fifoTrue
+      noSp := hi.noSp }
   · rw [if_neg hin] at h; exact absurd h (by simp)
 
 theorem inv_lock {s : Sys} (hi : Inv s) (n : Nat) {s' : Sys} {obs : List Obs}
@@ -543,7 +549,8 @@ theorem inv_lock {s : Sys} (hi : Inv s) (n : Nat) {s' : Sys} {obs : List Obs}
       wrFin := hi.wrFin
       inflFin := fun e he => hi.inflFin e (List.mem_filter.mp he).1
       finGood := hi.finGood
-      fifoTrue := hi.fifoTrue }
+      fifoTrue := hi.fifoTrue
+      noSp := hi.noSp }
   · rw [if_neg hin] at h; exact absurd h (by simp)
 
 theorem inv_remove {s : Sys} (hi : Inv s) (ids : List Nat) {s' : Sys} {obs : List Obs}
@@ -591,7 +598,8 @@ theorem inv_remove {s : Sys} (hi : Inv s) (ids : List Nat) {s' : Sys} {obs : Lis
       wrFin := hi.wrFin
       inflFin := hi.inflFin
       finGood := hi.finGood
-      fifoTrue := hi.fifoTrue }
+      fifoTrue := hi.fifoTrue
+      noSp := hi.noSp }
   · rw [if_neg hin] at h; exact absurd h (by simp)
 
 theorem mem_eraseIdx_flatten {l : List (List Nat)} {k x : Nat} (h : x ∈ (l.eraseIdx k).flatten) : x ∈ l.flatten := by
@@ -655,14 +663,15 @@ theorem inv_deliverAt {s : Sys} (hi : Inv s) (k : Nat) (hk : k = 0) {s' : Sys} {
       wrFin := hi.wrFin
       inflFin := hi.inflFin
       finGood := hi.finGood
-      fifoTrue := by subst hk; simp [hi.fifoTrue] }
+      fifoTrue := by subst hk; simp [hi.fifoTrue]
+      noSp := hi.noSp }
 
 theorem inv_deliver {s : Sys} (hi : Inv s) {s' : Sys} {obs : List Obs}
     (h : step s .deliver = some (s', obs)) : Inv s' := inv_deliverAt hi 0 rfl h
 
 theorem inv_crash {s : Sys} (hi : Inv s) {s' : Sys} {obs : List Obs}
     (h : step s .crash = some (s', obs)) : Inv s' := by
-  simp only [step, Option.some.injEq, Prod.mk.injEq] at h
+  simp only [step, hi.noSp, Option.some.injEq, Prod.mk.injEq] at h
   obtain ⟨rfl, _⟩ := h
   apply inv_boot hi.wrFile hi.fileWr
   · intro hf; exact (List.pairwise_append.mp (hi.notifSorted hf)).1
@@ -702,6 +711,356 @@ theorem run_inv (as : List Act) : ∀ {s s' : Sys} {obs : List Obs}, Inv s → r
         rw [← h.1]
         exact ih (step_inv hi a hs) hr
 
+/-! ### the part of the invariant that also holds for jobs configured with a savepoint URI
+
+Storage, id-counter and "only complete snapshots are persisted" facts. They do not depend on which checkpoint the job
+considers current, so they survive the savepoint start mode going back to the savepoint on a restart (D64). -/
+
+structure InvCore (s : Sys) : Prop where
+  store : ∃ hist, Store.Inv hist s.store
+  wrFile : ∀ w ∈ s.pub.written, ∃ f ∈ s.pub.files, w ≤ f
+  fileWr : ∀ f ∈ s.pub.files, f ∈ s.pub.written
+  remLt : ∀ R ∈ s.pub.removes, ∀ k ∈ R, k < maxL s.pub.files
+  inflWr : ∀ n, (n, true) ∈ s.pub.inflight → n ∈ s.pub.written
+  wrCid : ∀ w ∈ s.pub.written, w ≤ s.store.cid
+  inflCid : ∀ e ∈ s.pub.inflight, e.1 ≤ s.store.cid
+  wrFin : ∀ n ∈ s.pub.written, n ∈ s.pub.initial ∨ ∃ snap ∈ s.pub.finished, snap.id = n
+  inflFin : ∀ e ∈ s.pub.inflight, ∃ snap ∈ s.pub.finished, snap.id = e.1
+  finGood : ∀ snap ∈ s.pub.finished, snap.WF ∧ snap.isComplete = true
+
+theorem Inv.core {s : Sys} (hi : Inv s) : InvCore s :=
+  ⟨hi.store, hi.wrFile, hi.fileWr, hi.remLt, hi.inflWr, hi.wrCid, hi.inflCid, hi.wrFin, hi.inflFin, hi.finGood⟩
+
+theorem InvCore.wr_le_max {s : Sys} (hi : InvCore s) {w : Nat} (hw : w ∈ s.pub.written) : w ≤ maxL s.pub.files := by
+  obtain ⟨f, hf, hle⟩ := hi.wrFile w hw
+  exact Nat.le_trans hle (le_maxL hf)
+
+theorem InvCore.maxFiles_eq {s : Sys} (hi : InvCore s) (h : s.pub.files ≠ []) :
+    maxL s.pub.files = maxL s.pub.written := by
+  apply Nat.le_antisymm
+  · exact le_maxL (hi.fileWr _ (maxL_mem h))
+  · exact maxL_le (fun w hw => hi.wr_le_max hw)
+
+theorem InvCore.files_ne {s : Sys} (hi : InvCore s) (h : s.pub.written ≠ []) : s.pub.files ≠ [] := by
+  obtain ⟨f, hf, _⟩ := hi.wrFile _ (maxL_mem h)
+  intro he; rw [he] at hf; simp at hf
+
+theorem core_call {s : Sys} (hi : InvCore s) (c : Store.Call) {s' : Sys} {obs : List Obs}
+    (h : step s (.call c) = some (s', obs)) : InvCore s' := by
+  obtain ⟨hist, hs⟩ := hi.store
+  obtain ⟨hs', hle, hpub⟩ := Store.step_inv hs c
+  simp only [step] at h
+  cases hf : (Store.step s.store c).2.2 with
+  | none =>
+    rw [hf] at h
+    simp only [Option.some.injEq, Prod.mk.injEq] at h
+    obtain ⟨rfl, _⟩ := h
+    exact {
+      store := ⟨_, hs'⟩
+      wrFile := hi.wrFile
+      fileWr := hi.fileWr
+      remLt := hi.remLt
+      inflWr := hi.inflWr
+      wrCid := fun w hw => Nat.le_trans (hi.wrCid w hw) hle
+      inflCid := fun e he => Nat.le_trans (hi.inflCid e he) hle
+      wrFin := hi.wrFin
+      inflFin := hi.inflFin
+      finGood := hi.finGood }
+  | some snap =>
+    rw [hf] at h
+    simp only [Option.some.injEq, Prod.mk.injEq] at h
+    obtain ⟨rfl, _⟩ := h
+    obtain ⟨hgood, hid, hcid, _⟩ := hpub snap hf
+    exact {
+      store := ⟨_, hs'⟩
+      wrFile := hi.wrFile
+      fileWr := hi.fileWr
+      remLt := hi.remLt
+      inflWr := by
+        intro n hn
+        simp only [List.mem_append, List.mem_singleton, Prod.mk.injEq] at hn
+        rcases hn with hn | hn
+        · exact hi.inflWr n hn
+        · exact absurd hn.2 (by simp)
+      wrCid := fun w hw => Nat.le_trans (hi.wrCid w hw) hle
+      inflCid := by
+        intro e he
+        simp only [List.mem_append, List.mem_singleton] at he
+        rcases he with he | he
+        · exact Nat.le_trans (hi.inflCid e he) hle
+        · subst he; simp only; omega
+      wrFin := by
+        intro n hn
+        rcases hi.wrFin n hn with h | ⟨sn, hs, he⟩
+        · exact Or.inl h
+        · exact Or.inr ⟨sn, List.mem_append_left _ hs, he⟩
+      inflFin := by
+        intro e he
+        simp only [List.mem_append, List.mem_singleton] at he
+        rcases he with he | he
+        · obtain ⟨sn, hs, heq⟩ := hi.inflFin e he
+          exact ⟨sn, List.mem_append_left _ hs, heq⟩
+        · subst he; exact ⟨snap, List.mem_append_right _ List.mem_cons_self, rfl⟩
+      finGood := by
+        intro sn hs
+        simp only [List.mem_append, List.mem_singleton] at hs
+        rcases hs with hs | hs
+        · exact hi.finGood sn hs
+        · subst hs; exact ⟨hgood.wf, hgood.complete⟩ }
+
+theorem core_write {s : Sys} (hi : InvCore s) (n : Nat) {s' : Sys} {obs : List Obs}
+    (h : step s (.write n) = some (s', obs)) : InvCore s' := by
+  simp only [step] at h
+  by_cases hin : (n, false) ∈ s.pub.inflight
+  · rw [if_pos hin] at h
+    simp only [Option.some.injEq, Prod.mk.injEq] at h
+    obtain ⟨rfl, _⟩ := h
+    have hsub : ∀ x ∈ s.pub.files, x ∈ n :: s.pub.files.filter (· ≠ n) := by
+      intro x hx
+      by_cases hxn : x = n
+      · subst hxn; exact List.mem_cons_self
+      · exact List.mem_cons_of_mem _ (List.mem_filter.mpr ⟨hx, by simpa using hxn⟩)
+    have hmono : maxL s.pub.files ≤ maxL (n :: s.pub.files.filter (· ≠ n)) :=
+      maxL_le (fun x hx => le_maxL (hsub x hx))
+    exact {
+      store := hi.store
+      wrFile := by
+        intro w hw
+        simp only [List.mem_cons] at hw
+        rcases hw with hw | hw
+        · subst hw; exact ⟨w, List.mem_cons_self, Nat.le_refl _⟩
+        · obtain ⟨f, hf, hle⟩ := hi.wrFile w hw
+          exact ⟨f, hsub f hf, hle⟩
+      fileWr := by
+        intro f hf
+        simp only [List.mem_cons, List.mem_filter] at hf
+        rcases hf with hf | hf
+        · subst hf; exact List.mem_cons_self
+        · exact List.mem_cons_of_mem _ (hi.fileWr f hf.1)
+      remLt := fun R hR k hk => Nat.lt_of_lt_of_le (hi.remLt R hR k hk) hmono
+      inflWr := by
+        intro m hm
+        simp only [List.mem_map] at hm
+        obtain ⟨e, he, heq⟩ := hm
+        by_cases hen : e = (n, false)
+        · rw [if_pos hen] at heq
+          injection heq with h1 _
+          subst h1; exact List.mem_cons_self
+        · rw [if_neg hen] at heq
+          subst heq
+          exact List.mem_cons_of_mem _ (hi.inflWr m he)
+      wrCid := by
+        intro w hw
+        simp only [List.mem_cons] at hw
+        rcases hw with hw | hw
+        · subst hw; exact hi.inflCid _ hin
+        · exact hi.wrCid w hw
+      inflCid := by
+        intro e he
+        simp only [List.mem_map] at he
+        obtain ⟨e0, he0, heq⟩ := he
+        by_cases hen : e0 = (n, false)
+        · rw [if_pos hen] at heq; subst heq; subst hen; exact hi.inflCid (n, false) he0
+        · rw [if_neg hen] at heq; subst heq; exact hi.inflCid _ he0
+      wrFin := by
+        intro w hw
+        simp only [List.mem_cons] at hw
+        rcases hw with hw | hw
+        · subst hw; exact Or.inr (hi.inflFin _ hin)
+        · exact hi.wrFin w hw
+      inflFin := by
+        intro e he
+        simp only [List.mem_map] at he
+        obtain ⟨e0, he0, heq⟩ := he
+        by_cases hen : e0 = (n, false)
+        · rw [if_pos hen] at heq; subst heq; subst hen; exact hi.inflFin (n, false) he0
+        · rw [if_neg hen] at heq; subst heq; exact hi.inflFin _ he0
+      finGood := hi.finGood }
+  · rw [if_neg hin] at h; exact absurd h (by simp)
+
+theorem core_lock {s : Sys} (hi : InvCore s) (n : Nat) {s' : Sys} {obs : List Obs}
+    (h : step s (.lock n) = some (s', obs)) : InvCore s' := by
+  simp only [step] at h
+  by_cases hin : (n, true) ∈ s.pub.inflight
+  · rw [if_pos hin] at h
+    simp only [lockUpdate, Option.some.injEq, Prod.mk.injEq] at h
+    obtain ⟨rfl, _⟩ := h
+    have hnw : n ∈ s.pub.written := hi.inflWr n hin
+    have hnle : n ≤ maxL s.pub.files := hi.wr_le_max hnw
+    exact {
+      store := hi.store
+      wrFile := hi.wrFile
+      fileWr := hi.fileWr
+      remLt := by
+        intro R hR k hk
+        simp only at hR
+        by_cases he : (s.pub.completed.filter (· < n)).isEmpty = true
+        · rw [if_pos he] at hR; exact hi.remLt R hR k hk
+        · rw [if_neg he] at hR
+          simp only [List.mem_append, List.mem_singleton] at hR
+          rcases hR with hR | hR
+          · exact hi.remLt R hR k hk
+          · subst hR
+            have := (List.mem_filter.mp hk).2
+            simp only [decide_eq_true_eq] at this
+            show k < maxL s.pub.files
+            omega
+      inflWr := fun m hm => hi.inflWr m (List.mem_filter.mp hm).1
+      wrCid := hi.wrCid
+      inflCid := fun e he => hi.inflCid e (List.mem_filter.mp he).1
+      wrFin := hi.wrFin
+      inflFin := fun e he => hi.inflFin e (List.mem_filter.mp he).1
+      finGood := hi.finGood }
+  · rw [if_neg hin] at h; exact absurd h (by simp)
+
+theorem core_remove {s : Sys} (hi : InvCore s) (ids : List Nat) {s' : Sys} {obs : List Obs}
+    (h : step s (.remove ids) = some (s', obs)) : InvCore s' := by
+  simp only [step] at h
+  by_cases hin : ids ∈ s.pub.removes
+  · rw [if_pos hin] at h
+    simp only [Option.some.injEq, Prod.mk.injEq] at h
+    obtain ⟨rfl, _⟩ := h
+    have hkeep : s.pub.files ≠ [] → maxL s.pub.files ∈ s.pub.files.filter (· ∉ ids) := by
+      intro hne
+      refine List.mem_filter.mpr ⟨maxL_mem hne, ?_⟩
+      simp only [decide_eq_true_eq]
+      intro hm
+      exact absurd (hi.remLt ids hin _ hm) (Nat.lt_irrefl _)
+    have hmaxeq : s.pub.files ≠ [] → maxL (s.pub.files.filter (· ∉ ids)) = maxL s.pub.files := by
+      intro hne
+      apply Nat.le_antisymm
+      · exact maxL_le (fun x hx => le_maxL (List.mem_filter.mp hx).1)
+      · exact le_maxL (hkeep hne)
+    exact {
+      store := hi.store
+      wrFile := by
+        intro w hw
+        obtain ⟨f, hf, _⟩ := hi.wrFile w hw
+        have hne : s.pub.files ≠ [] := by intro he; rw [he] at hf; simp at hf
+        exact ⟨_, hkeep hne, hi.wr_le_max hw⟩
+      fileWr := fun f hf => hi.fileWr f (List.mem_filter.mp hf).1
+      remLt := by
+        intro R hR k hk
+        have hlt := hi.remLt R (List.mem_of_mem_erase hR) k hk
+        have hne : s.pub.files ≠ [] := by
+          intro he; rw [he] at hlt; simp [maxL] at hlt
+        simp only
+        rw [hmaxeq hne]; exact hlt
+      inflWr := hi.inflWr
+      wrCid := hi.wrCid
+      inflCid := hi.inflCid
+      wrFin := hi.wrFin
+      inflFin := hi.inflFin
+      finGood := hi.finGood }
+  · rw [if_neg hin] at h; exact absurd h (by simp)
+
+theorem core_deliverAt {s : Sys} (hi : InvCore s) (k : Nat) (hk : k = 0) {s' : Sys} {obs : List Obs}
+    (h : deliverAt s k = some (s', obs)) : InvCore s' := by
+  simp only [deliverAt] at h
+  cases hn : s.pub.notifs[k]? with
+  | none => rw [hn] at h; exact absurd h (by simp)
+  | some ids =>
+    rw [hn] at h
+    simp only [Option.some.injEq, Prod.mk.injEq] at h
+    obtain ⟨rfl, _⟩ := h
+    have hmem : ids ∈ s.pub.notifs := List.mem_of_getElem? hn
+    have hsub : ∀ x ∈ (s.pub.delivered ++ ids) ++ (s.pub.notifs.eraseIdx k).flatten,
+        x ∈ s.pub.delivered ++ s.pub.notifs.flatten := by
+      intro x hx
+      simp only [List.mem_append] at hx ⊢
+      rcases hx with (hx | hx) | hx
+      · exact Or.inl hx
+      · exact Or.inr (List.mem_flatten.mpr ⟨ids, hmem, hx⟩)
+      · exact Or.inr (mem_eraseIdx_flatten hx)
+    exact {
+      store := hi.store
+      wrFile := hi.wrFile
+      fileWr := hi.fileWr
+      remLt := hi.remLt
+      inflWr := hi.inflWr
+      wrCid := hi.wrCid
+      inflCid := hi.inflCid
+      wrFin := hi.wrFin
+      inflFin := hi.inflFin
+      finGood := hi.finGood }
+
+
+theorem core_crash {s : Sys} (hi : InvCore s) {s' : Sys} {obs : List Obs}
+    (h : step s .crash = some (s', obs)) : InvCore s' := by
+  simp only [step] at h
+  cases hsp : s.savepoint with
+  | none =>
+    rw [hsp] at h
+    simp only [Option.some.injEq, Prod.mk.injEq] at h
+    obtain ⟨rfl, _⟩ := h
+    have hmax : ∀ w ∈ s.pub.written, w ≤ maxL s.pub.files := fun w hw => hi.wr_le_max hw
+    refine ⟨⟨[], by intro p hp; simp [boot] at hp⟩, by simpa [boot] using hi.wrFile, by simpa [boot] using hi.fileWr,
+      by simp [boot], by simp [boot], ?_, by simp [boot], by simpa [boot] using hi.wrFin, by simp [boot],
+      by simpa [boot] using hi.finGood⟩
+    by_cases hf : s.pub.files = []
+    · have hw : s.pub.written = [] := by
+        cases hwr : s.pub.written with
+        | nil => rfl
+        | cons a t => obtain ⟨f, hf', _⟩ := hi.wrFile a (by rw [hwr]; exact List.mem_cons_self); rw [hf] at hf'; simp at hf'
+      simp [boot, hw]
+    · simpa [boot, load_of_ne hf] using hmax
+  | some k =>
+    rw [hsp] at h
+    simp only [Option.some.injEq, Prod.mk.injEq] at h
+    obtain ⟨rfl, _⟩ := h
+    refine ⟨⟨[], by intro p hp; simp [bootSavepoint, Store.loadFromSavepoint] at hp⟩,
+      by simpa [bootSavepoint] using hi.wrFile, by simpa [bootSavepoint] using hi.fileWr,
+      by simp [bootSavepoint], by simp [bootSavepoint], ?_, by simp [bootSavepoint],
+      by simpa [bootSavepoint] using hi.wrFin, by simp [bootSavepoint], by simpa [bootSavepoint] using hi.finGood⟩
+    intro w hw
+    have := hi.wr_le_max (show w ∈ s.pub.written by simpa [bootSavepoint] using hw)
+    simp only [bootSavepoint, Store.loadFromSavepoint]
+    omega
+
+theorem core_step {s : Sys} (hi : InvCore s) (a : Act) {s' : Sys} {obs : List Obs}
+    (h : step s a = some (s', obs)) : InvCore s' := by
+  cases a with
+  | call c => exact core_call hi c h
+  | write n => exact core_write hi n h
+  | lock n => exact core_lock hi n h
+  | remove ids => exact core_remove hi ids h
+  | deliver => exact core_deliverAt hi 0 rfl h
+  | crash => exact core_crash hi h
+
+theorem run_core (as : List Act) : ∀ {s s' : Sys} {obs : List Obs}, InvCore s → run s as = some (s', obs) → InvCore s' := by
+  induction as with
+  | nil => intro s s' obs hi h; simp only [run, Option.some.injEq, Prod.mk.injEq] at h; rw [← h.1]; exact hi
+  | cons a t ih =>
+    intro s s' obs hi h
+    simp only [run] at h
+    cases hs : step s a with
+    | none => rw [hs] at h; exact absurd h (by simp)
+    | some r =>
+      obtain ⟨s1, o1⟩ := r
+      rw [hs] at h
+      simp only at h
+      cases hr : run s1 t with
+      | none => rw [hr] at h; exact absurd h (by simp)
+      | some r2 =>
+        obtain ⟨s2, o2⟩ := r2
+        rw [hr] at h
+        simp only [Option.some.injEq, Prod.mk.injEq] at h
+        rw [← h.1]
+        exact ih (core_step hi a hs) hr
+
+/-- a job configured with the savepoint URI of checkpoint `k`, on any starting storage -/
+theorem core_initSavepoint (k : Nat) (files0 : List Nat) : InvCore (initSavepoint k files0) := by
+  refine ⟨⟨[], by intro p hp; simp [initSavepoint, bootSavepoint, Store.loadFromSavepoint] at hp⟩,
+    fun w hw => ⟨w, by simpa [initSavepoint, bootSavepoint] using hw, Nat.le_refl _⟩,
+    fun f hf => by simpa [initSavepoint, bootSavepoint] using hf,
+    by simp [initSavepoint, bootSavepoint], by simp [initSavepoint, bootSavepoint], ?_,
+    by simp [initSavepoint, bootSavepoint], fun n hn => Or.inl (by simpa [initSavepoint, bootSavepoint] using hn),
+    by simp [initSavepoint, bootSavepoint], by simp [initSavepoint, bootSavepoint]⟩
+  intro w hw
+  have : w ≤ maxL files0 := le_maxL (by simpa [initSavepoint, bootSavepoint] using hw)
+  simp only [initSavepoint, bootSavepoint, Store.loadFromSavepoint]
+  omega
+
 /-- the starting storage content is a constant of a run -/
 theorem step_initial {s s' : Sys} {a : Act} {obs : List Obs} (h : step s a = some (s', obs)) :
     s'.pub.initial = s.pub.initial := by
@@ -732,8 +1091,8 @@ theorem step_initial {s s' : Sys} {a : Act} {obs : List Obs} (h : step s a = som
     · exact absurd h (by simp)
     · simp only [Option.some.injEq, Prod.mk.injEq] at h; rw [← h.1]
   | crash =>
-    simp only [step, Option.some.injEq, Prod.mk.injEq] at h
-    rw [← h.1]; rfl
+    simp only [step] at h
+    split at h <;> (simp only [Option.some.injEq, Prod.mk.injEq] at h; rw [← h.1]; rfl)
 
 theorem run_initial (as : List Act) : ∀ {s s' : Sys} {obs : List Obs}, run s as = some (s', obs) →
     s'.pub.initial = s.pub.initial := by
